@@ -199,6 +199,36 @@ fn h<T: Hash + ?Sized>(t: &T) -> u64 {
     s.finish()
 }
 
+/// A hasher that is not a byte stream: it records every call made on it (which method, which bytes). A type that
+/// is `Borrow<str>` must drive EVERY hasher exactly like `str` does, not only the byte-stream ones.
+#[derive(Default)]
+struct TraceHasher(Vec<(&'static str, Vec<u8>)>);
+
+macro_rules! trace_int {
+    ($($f:ident $t:ty),+) => {$(
+        fn $f(&mut self, i: $t) {
+            self.0.push((stringify!($f), i.to_ne_bytes().to_vec()));
+        }
+    )+};
+}
+
+impl Hasher for TraceHasher {
+    fn write(&mut self, bytes: &[u8]) {
+        self.0.push(("write", bytes.to_vec()));
+    }
+    trace_int!(write_u8 u8, write_u16 u16, write_u32 u32, write_u64 u64, write_u128 u128, write_usize usize,
+               write_i8 i8, write_i16 i16, write_i32 i32, write_i64 i64, write_i128 i128, write_isize isize);
+    fn finish(&self) -> u64 {
+        0
+    }
+}
+
+fn trace<T: Hash + ?Sized>(t: &T) -> Vec<(&'static str, Vec<u8>)> {
+    let mut s = TraceHasher::default();
+    t.hash(&mut s);
+    s.0
+}
+
 /// every fallible constructor on the same bytes; returns the `&[u8]` result, reports disagreement
 fn construct_all(bs: &[u8], rep: &mut Report) -> Option<ByteString> {
     let want = std::str::from_utf8(bs).is_ok();
@@ -263,6 +293,9 @@ fn check_valid(b: &ByteString, rep: &mut Report, what: &str) {
             // agreement with str: Display, to_string/into String, hash, eq
             if format!("{b}") != s || String::from(b.clone()) != s || h(b) != h(s) || *b != *s {
                 rep.t3("C20", &format!("ByteString {} disagrees with str on display/hash/eq", hex(raw)));
+            }
+            if trace(b) != trace(s) {
+                rep.t3("C20", &format!("ByteString {} drives a Hasher differently from the equal str ({:?} vs {:?}): with a hasher that is not a byte stream the two hash differently, a map keyed by ByteString cannot be looked up by &str", hex(raw), trace(b), trace(s)));
             }
         }
     }
